@@ -86,6 +86,8 @@ def gen_dict_op(r, key, val, ops=OPS):
         op["key"] = key(True)
     elif k == "pop_default":
         op["key"] = key(True)
+        # the default may be the very object that is stored (or an equal one)
+        op["dflt"] = r.choice(["const", "const", "same", "same", "equal"])
     elif k in ("update_map", "update_pairs", "ior_map", "ior_pairs"):
         op["pairs"] = [[key(), val()] for _ in range(r.randint(0, 4))]
         nk = nv = len(op["pairs"])
@@ -124,6 +126,21 @@ def build_dict_arg(op):
     return pairs
 
 
+def pop_default_value(d, op):
+    """Default handed to pop(key, default): a constant, the stored object
+    itself, or an equal but not identical object."""
+    how = op.get("dflt", "const")
+    key = raw(op["key"])
+    if how == "const" or key not in d:
+        return -1
+    cur = dict.__getitem__(d, key)
+    if how == "same":
+        return cur
+    if type(cur) is int:
+        return int(str(cur))
+    return cur
+
+
 def sut_dict_apply(td, op):
     k = op["k"]
     if k == "setitem":
@@ -133,7 +150,7 @@ def sut_dict_apply(td, op):
     if k == "pop":
         return sut(td.pop, raw(op["key"]))
     if k == "pop_default":
-        return sut(td.pop, raw(op["key"]), -1)
+        return sut(td.pop, raw(op["key"]), pop_default_value(td, op))
     if k == "popitem":
         return sut(td.popitem)
     if k == "clear":
@@ -252,7 +269,7 @@ class Prop:
             elif k == "pop":
                 ret = trial.pop(raw(op["key"]))
             elif k == "pop_default":
-                ret = trial.pop(raw(op["key"]), -1)
+                ret = trial.pop(raw(op["key"]), pop_default_value(trial, op))
             elif k == "popitem":
                 ret = trial.popitem()
             elif k == "clear":
